@@ -1,5 +1,5 @@
 """C14 - displayed object and connection labels are unambiguous and work as matchers."""
-import json, os, random
+import copy, json, os, random
 import framework, tlc, e1, gen, mrender, sessionprop
 from props import sessbase, c02
 from props.common import relevant
@@ -56,6 +56,7 @@ def label_queries(trace, gens, r, n):
         if e['in']['e'] == 'msg' and e['in']['tag'] not in order:
             order.append(e['in']['tag'])
     evs = []
+    used = []
     for _ in range(n):
         tag = r.choice(order)
         cname = mrender.letters(order.index(tag)).upper()
@@ -66,8 +67,24 @@ def label_queries(trace, gens, r, n):
             i = r.choice(list(cg.objs))
             o = r.choice(cg.objs[i])
             ast = mrender.pat_bare({'k': 'idgen', 'id': o.id, 'gen': o.gen}, mrender.W(cname))
-        evs.append({'in': {'e': 'cmd', 'c': 'list', 'hasm': True, 'ok': True, 'ast': ast, 'cap': -1, 'caperr': False,
-                           'spell': [r.choice(['', ' ']), '', []]}})
+        spell = [r.choice(['', ' ']), '', []]
+        if used and r.random() < 0.3:
+            ast, spell = copy.deepcopy(r.choice(used))        # a label that was used before, as it was written then
+        else:
+            used.append((ast, spell))
+        c = r.random()
+        if c < 0.2:
+            # the label given to `filter` / `breakpoint` (sometimes after another matcher, so that it joins something): what the
+            # filter then selects is observed on the recorded messages, and the label is asked for again later
+            which = r.choice(['filter', 'break'])
+            if r.random() < 0.5:
+                evs.append({'in': {'e': 'cmd', 'c': which, 'hasarg': True, 'ok': True, 'spell': ['', '', []],
+                                   'ast': mrender.pat_bare({'k': 'type', 't': mrender.W(r.choice(['wl_surface', 'wl_callback', 'wl_registry']))})}})
+            evs.append({'in': {'e': 'cmd', 'c': which, 'hasarg': True, 'ok': True, 'ast': ast, 'spell': spell}})
+            if r.random() < 0.5:
+                evs.append({'in': {'e': 'cmd', 'c': which, 'hasarg': True, 'ok': True, 'ast': mrender.BANG, 'spell': ['', '', []]}})
+        evs.append({'in': {'e': 'cmd', 'c': 'list', 'hasm': True, 'ok': True, 'ast': copy.deepcopy(ast), 'cap': -1, 'caperr': False,
+                           'spell': spell}})
     return evs
 
 
